@@ -1,4 +1,4 @@
-"""C05 -- moving definitions and modules keeps importers working (structural clauses R05.1-R05.12)."""
+"""C05 -- moving definitions and modules keeps importers working (structural clauses R05.1-R05.13)."""
 from __future__ import annotations
 
 import ast
@@ -25,7 +25,8 @@ EXPLANATION = (
     "import-insertion helper every move uses identifies a from-import by (module, level) and tests 'already provided by "
     "an existing import' on dotted names with the trailing dot.  R05.10: a from-import's module_name is compared with an "
     "absolute module name only under a test of its level.  R05.11: an effectful per-statement step is never short-circuited by "
-    "the flag it accumulates.  R05.12: module-ness of a renamed name is decided on the object, not on the kind of the name."
+    "the flag it accumulates.  R05.12: module-ness of a renamed name is decided on the object, not on the kind of the name.  R05.13: a from-import name obtained "
+    "by splitting a dotted module name is its last component."
 )
 ASSUMPTIONS = [
     "helper summaries: self.m() resolves through the class MRO; x.y.m() is attributed to every method m of the analysed modules",
@@ -609,3 +610,33 @@ def _shared(ctx, res) -> None:
             "module-ness is decided on get_object() against the module base class" if ok12 else
             f"Rename._is_renaming_a_module: {why}: a rename started on a module bound by `from pkg import mod` (an ImportedName whose object is a "
             "module) rewrites every importer but never moves the file, so every importer fails with ModuleNotFoundError", function=rm.qualname)
+
+    # R05.13: the names of a from-import are single identifiers.  Where such a name is obtained by splitting a dotted
+    # module name, it must be the LAST component (rsplit(sep, 1) / rpartition), else `from a import b.c` is emitted.
+    n13 = 0
+    for f in sorted((f for f in idx.functions.values() if f.unit.modname in MODULES or f.unit.modname.startswith("rope.refactor.importutils")),
+                    key=lambda f: f.qualname):
+        splits: Dict[str, Tuple[ast.Call, int, int]] = {}
+        for x in walk_local(f.node):
+            if isinstance(x, ast.Assign) and isinstance(x.targets[0], ast.Tuple) and isinstance(x.value, ast.Call) \
+                    and isinstance(x.value.func, ast.Attribute) and x.value.func.attr in ("split", "rsplit", "partition", "rpartition") \
+                    and x.value.args and const_str(x.value.args[0]) == ".":
+                for i, t in enumerate(x.targets[0].elts):
+                    if isinstance(t, ast.Name):
+                        splits[t.id] = (x.value, i, len(x.targets[0].elts))
+        for c in calls_in(f.node):
+            if call_name(c) != "FromImport" or len(c.args) < 3 or not isinstance(c.args[2], ast.List):
+                continue
+            for e in c.args[2].elts:
+                if isinstance(e, ast.Tuple) and e.elts and isinstance(e.elts[0], ast.Name) and e.elts[0].id in splits:
+                    call, i, k = splits[e.elts[0].id]
+                    n13 += 1
+                    right = (call.func.attr == "rsplit" and len(call.args) == 2 and isinstance(call.args[1], ast.Constant) and call.args[1].value == 1) \
+                        or call.func.attr == "rpartition"
+                    ok = right and i == k - 1
+                    res.add("R05.13", f"{_short(f)}|imported-name:{n13}", ok, f"{f.unit.rel}:{call.lineno}",
+                            "the imported name is the last component of the dotted module name" if ok else
+                            f"{_short(f)} builds `from <pkg> import <name>` with <name> taken from `{ast.unparse(call)}` (component {i + 1} of {k}): for a module "
+                            "nested more than one package deep the name still contains a dot and the client gets `from a import b.c` (SyntaxError)",
+                            function=f.qualname)
+    res.floor("R05.13", "from-import names obtained by splitting a dotted name", n13, 1)
